@@ -73,8 +73,12 @@ def generate(rng, tier: str, index: int) -> dict:
     if (local_as > 65535 or peer_as > 65535) and not conf['asn4']:
         conf['asn4'] = True  # 4-byte AS numbers on either side need the capability to be expressible at all
     opens = []
+    # `local-as auto`: exabgp reads the peer's OPEN first and answers with the peer's AS (an iBGP session whatever the peer is)
+    conf['local_auto'] = rng.chance(0.1)
     for _ in range(rng.randint(1, 6)):
         kind = rng.choice(['ok', 'ok', 'ok', 'ok', 'bad-as', 'bad-id', 'bad-hold', 'bad-version', 'same-id'])
+        if conf['local_auto'] and kind == 'bad-as':
+            kind = 'ok'  # what exabgp answers to a peer whose AS is not the configured peer-as is not modelled for the mirroring case
         pf = rng.sample(ALL_FAMS, rng.randint(0, 4))
         if rng.chance(0.7) and (1, 1) not in pf:
             pf.append((1, 1))
@@ -99,6 +103,8 @@ def generate(rng, tier: str, index: int) -> dict:
             if caps:
                 caps.append(rng.choice(caps))  # duplicate
         rng.shuffle(caps)
+        if conf['local_auto'] and ['asn4'] not in caps:
+            caps.append(['asn4'])  # the AS exabgp mirrors must be stated unambiguously
         opens.append({'kind': kind, 'hold': rng.choice([0, 3, 9, 90, 180, 65535]), 'caps': caps, 'one_param': rng.chance(0.5), 'ext': rng.choice([None, None, True]), 'pad': rng.choice([0, 0, 300]), 'fit': rng.choice([None, None, 253, 254, 255, 255])})
     return {'micro_seed': rng.randint(1, 1 << 48), 'knobs': knobs(rng), 'conf': conf, 'opens': opens}
 
@@ -213,12 +219,16 @@ def fam_txt(f) -> str:
 def execute(plan: dict) -> dict:
     w = make_world(plan)
     conf = plan['conf']
+    local_as_text = conf['local_as']
+    if conf.get('local_auto'):
+        conf = dict(conf, local_as=conf['peer_as'])  # what the oracle expects exabgp to be
+        local_as_text = 'auto'
     caps = {
         'asn4': conf['asn4'], 'route-refresh': conf['refresh'], 'extended-message': conf['extmsg'], 'graceful-restart': conf['gr'] if conf['gr'] else 'disable',
         'add-path': conf['addpath'], 'nexthop': conf['nexthop'], 'multi-session': False, 'operational': False, 'aigp': False, 'software-version': False,
     }  # fmt: skip
     nb = {
-        'peer_ip': PEER, 'local_ip': LOCAL, 'local_as': conf['local_as'], 'peer_as': conf['peer_as'], 'router_id': LOCAL, 'hold': conf['hold'],
+        'peer_ip': PEER, 'local_ip': LOCAL, 'local_as': local_as_text, 'peer_as': conf['peer_as'], 'router_id': LOCAL, 'hold': conf['hold'],
         'families': conf['families'], 'caps': caps, 'addpath_families': conf['addpath_families'] or None, 'adj-rib-out': False,
         'api': {'processes': ['h1'], 'options': ['negotiated', 'neighbor-changes']},
     }  # fmt: skip
